@@ -42,7 +42,7 @@ func init() {
 			"verification times in non-UTC zones, CLI roots from file / download / failing or garbage download / missing or empty file, attestation containers raw/hex/base64/proto, parent-command flags); cells there are (family, entry point, option values, operator|roots|time, outcome). " +
 			"Two more (round4.go), same rule: 'multi' = one command-line run given several things (verify with 2-4 endorsement PATHs, authentic and not in every order, the same PATH twice, the root flag at any position; sev/tdx validate with further positional arguments), each PATH also alone as reference; " +
 			"'live' = the verification time left unset (= the time of the call): per case a signer certificate that runs out and one that starts at a whole second a few seconds ahead, validators and option values made (and partly used) before it and used again after it; a call is judged only if it lay wholly >= 1 s on one side of that second. " +
-			"Three more (round5.go), same rule: 'cert' = the contents of the embedded signer certificate drawn (private critical / non-critical extensions, extended key usages, CA flag, no key usage) x issuer (caller's root, foreign root, self-signed, intermediate) x validity (current, run out, not begun) x roots x time, correctly signed with the certificate's key, through every entry point; " +
+			"Three more (round5.go), same rule: 'cert' = the contents of the embedded signer certificate drawn (private critical / non-critical extensions, extended key usages, CA flag, no key usage; a non-RSA subject key: ECDSA P-256/P-384, Ed25519, the endorsement then genuinely signed with that key) x issuer (caller's root, foreign root, self-signed, intermediate) x validity (current, run out, not begun) x roots x time, correctly signed with the certificate's key, through every entry point; " +
 			"'content' = the contents of the unauthenticated payload drawn (timestamp on either side of the release-process change, provenance fields, technology sections) x authentication state (genuine, re-signed foreign / self-signed, garbage signature, no signature and certificate, edited after signing), through every entry point; " +
 			"'sources' = one SevValidate / sev validate / validator-closure call whose endorsement sources DIFFER (bucket answering successive requests differently, table entry vs bucket, explicit endorsement vs table, testonly_force_gcs), with an attestation that only the forged source's contents admit in half of the cases",
 		Assumptions: []string{"oracle is one-directional (accept => authentic) and is the weakest reading of C01: any PSS salt length, root expiry not required, no CA/key-usage constraints",
